@@ -38,3 +38,11 @@ func (c *ShipConnection) VerifArmTimer(timerType uint, millis int) {
 func (c *ShipConnection) VerifStopTimer() {
 	c.stopHandshakeTimer()
 }
+
+// VerifTimerGeneration identifies the armed timer: the value (the stop channel of the timer armed
+// last) changes with every arming. Keeping the value alive keeps it distinct from later ones.
+func (c *ShipConnection) VerifTimerGeneration() any {
+	c.handshakeTimerMux.Lock()
+	defer c.handshakeTimerMux.Unlock()
+	return c.handshakeTimerStopChan
+}
